@@ -21,8 +21,8 @@ Faults == {"badlog", "addr-syntax", "addr-inuse", "addr-unassignable", "cache-da
 Flags == {"none", "-h", "-print-default-template", "-print-ctrl-i"}
 Exits == {"ctrl-c", "ctrl-d"}
 \* what is going on when the operator ends a healthy run: nothing, one stream attached, a whole
-\* shell, a shell with output muted, half a line typed
-ServeStates == {"idle", "half", "shell", "muted", "typed"}
+\* shell, a shell with output muted, half a line typed, a shell flooding the terminal with output
+ServeStates == {"idle", "half", "shell", "muted", "typed", "flood"}
 
 VARIABLES
   sst,       \* state of the healthy run when it is ended (only varied for fault-free configurations)
